@@ -35,7 +35,7 @@ Print Assumptions C12_total_within_limit.
 
 (* a patch stopped by the limit returns no document *)
 Theorem C12_no_document : forall o indent p doc r j l a,
-  load_doc doc = Ok r -> apply_from o 0 (mkState r 0) p = AErr j (ECopyLimit l a) ->
+  load_doc o doc = Ok r -> apply_from o 0 (mkState r 0) p = AErr j (ECopyLimit l a) ->
   apply_tree o indent p doc = RErr (Some j) (ECopyLimit l a).
 Proof. intros o indent p doc r j l a L A. unfold apply_tree. now rewrite L, A. Qed.
 Print Assumptions C12_no_document.
@@ -45,10 +45,10 @@ Print Assumptions C12_no_document.
 Example C12_nonvacuous :
   match api_decode (B "[{""op"":""copy"",""from"":""/a"",""path"":""/b""},{""op"":""copy"",""from"":""/a"",""path"":""/c""}]") with
   | Some p =>
-      api_apply (mkOpts true 29 false false true None) [] p (B "{""a"":""<x>""}") = RErr (Some 1%nat) (ECopyLimit 29 30) /\
-      (exists out, api_apply (mkOpts true 30 false false true None) [] p (B "{""a"":""<x>""}") = ROut out) /\
-      api_apply (mkOpts true 9 false false false None) [] p (B "{""a"":""<x>""}") = RErr (Some 1%nat) (ECopyLimit 9 10) /\
-      (exists out, api_apply (mkOpts true 10 false false false None) [] p (B "{""a"":""<x>""}") = ROut out)
+      api_apply (mkOpts true 29 false false true [] None) [] p (B "{""a"":""<x>""}") = RErr (Some 1%nat) (ECopyLimit 29 30) /\
+      (exists out, api_apply (mkOpts true 30 false false true [] None) [] p (B "{""a"":""<x>""}") = ROut out) /\
+      api_apply (mkOpts true 9 false false false [] None) [] p (B "{""a"":""<x>""}") = RErr (Some 1%nat) (ECopyLimit 9 10) /\
+      (exists out, api_apply (mkOpts true 10 false false false [] None) [] p (B "{""a"":""<x>""}") = ROut out)
   | None => False
   end.
 Proof. vm_compute. repeat split; try reflexivity; eexists; reflexivity. Qed.
